@@ -164,6 +164,15 @@ class RefNet:
                                                  's0': {k: cval(vals[k]) for k in L['state']}}
         self.state_names = [f'{n}/{o}/{v}' for (n, o), i in self.inst.items() for v in LIB[i['lib']]['state']]
 
+    def clone_node(self, src, new):
+        """a further node that carries src's node template as it is NOW (values included); no edges"""
+        import copy as _copy
+        self.nodes[new] = self.nodes[src]
+        for (n, o), i in list(self.inst.items()):
+            if n == src:
+                self.inst[(new, o)] = _copy.deepcopy(i)
+        self.state_names = [f'{n}/{o}/{v}' for (n, o), i in self.inst.items() for v in LIB[i['lib']]['state']]
+
     def set_value(self, node, opname, var, val):
         i = self.inst[(node, opname)]
         (i['p'] if var in i['p'] else i['s0'])[var] = val
